@@ -43,6 +43,11 @@ CHECKS = {
    note=TB + "Fix c6f117f also belongs here (a blank before a comma changed the AST).",
    technique="Coq relational theorem over parser programs + gap-by-gap substitution testing with hook-based classification",
    design="5 C16"),
+ "C19": dict(
+   text="Theorems (all statements, all nesting depths, by structural induction over sources and subqueries): RequiredPrivileges of a SELECT contains a read privilege on the database of every measurement read at any depth and a write privilege on the INTO target's database; EXPLAIN requires exactly what the SELECT requires; every statement kind whose SELECTs/source lists have FROM clauses (the parser guarantees it) reports a non-empty list; each of the 23 administrative statement kinds the property names requires exactly [admin, all privileges]; source-derived entries are only non-admin reads and writes. Tie: RequiredPrivileges of every statement kind x option subsets (generated), the cardinality x EXACT x ON x FROM matrix, subquery depth to 6 with every target form, compared entry by entry with the model and judged directly by an independent walker over the Go AST.",
+   note=TB + "Defect found and repaired (fix c7dc48f): five cardinality forms without FROM required nothing. The model is of the repaired code.",
+   technique="Coq proof (structural induction over nested sources; case analysis over statement kinds) + exhaustive-over-kinds correspondence",
+   design="5 C19"),
  "C03": dict(
    text="Theorems (all chains, all operands, by induction): the tree ParseExpr's right-spine insertion builds from a chain yields the chain in order and is Grouped (left children bind at least as tight, right children strictly tighter); there is exactly one Grouped tree per chain; the function on real BinaryExpr nodes builds that tree for every operand parseUnaryExpr can return; precedence/isOperator tables by computation over the whole enumeration; right spine <= 5. Tie: token table compared exhaustively with the running code; every chain of <=3 (thorough <=4) operators over all 18 spellings plus random chains with parenthesised, negated and literal operands compared (ParseExpr vs model, composed from separately parsed operands) and checked directly against the documented five-level reading and against re-parsing of the printed tree.",
    note=TB + "Re-printing is guarded by the known finding C02-neg-rhs (unary sign desugared without ParenExpr).",
